@@ -123,6 +123,9 @@ def run(ctx: vlib.Ctx):
                 "planes; span mutations of every shipped document; bracket/indent depth ladders; 10 size-scaled families at n,2n,4n,8n with a "
                 "deterministic cost; all four tools x flags on a sample; non-trivial = any; distinct = distinct text")
     proj = X.setup(ctx, PROPS)
+    # tools clause: guard-coverage theorems of the `tools` engine (regenerated Gen/Guards from the execute() bodies)
+    ctx.translate("tools")
+    ctx.lean("tools", ["Octave.Props.C20tools"], extra_targets=())
     findings = vlib.load_findings(ctx.prop)
     rng = random.Random(ctx.seed)
     wide = ctx.thorough or ctx.widen > 1
